@@ -7,6 +7,7 @@ mod e2e;
 mod frontend;
 mod ty;
 mod c27;
+mod c22;
 mod lean;
 mod report;
 mod rng;
@@ -61,6 +62,7 @@ fn main() {
                 "C17" => c17::replay(&f["input"]),
                 "C03" => c03::replay(&f["input"]),
                 "C27" => c27::replay(&f["input"]),
+                "C22" => c22::replay(&f["input"]),
                 _ => "replay not implemented for this property".to_string(),
             };
             println!("input: {}\n{}", f["input"], out);
@@ -88,6 +90,7 @@ fn main() {
         "C17" => c17::run(&tier, seed, widen),
         "C03" => c03::run(&tier, seed, widen),
         "C27" => c27::run(&tier, seed, widen),
+        "C22" => c22::run(&tier, seed, widen),
         _ => {
             eprintln!("unknown property {prop}");
             std::process::exit(2);
